@@ -41,7 +41,21 @@ def refactor_controls():
     return out
 
 
-M = M + seeded_mutants() + refactor_controls()
+def auto_mutants():
+    """Single-line mutants that pass kira's unit tests and break a property (found by tools/mutate.py, see DESIGN §14):
+    applied by line number, with the old line verified."""
+    p = os.path.join(HERE, 'auto_mutants.json')
+    if not os.path.exists(p):
+        return []
+    out = []
+    for m in json.load(open(p)):
+        m = dict(m)
+        m.setdefault('tier', 'quick')
+        out.append(m)
+    return out
+
+
+M = M + auto_mutants() + seeded_mutants() + refactor_controls()
 
 
 def run_one(mu, slot):
@@ -63,11 +77,19 @@ def run_one(mu, slot):
         else:
             path = os.path.join(scratch, 'crates', 'kira', 'src', mu['file'])
             s = open(path).read()
-            if mu['id'].startswith('ctrl-rename') and s.count(mu['old']) >= 1:
+            if 'line' in mu:
+                ls = s.split('\n')
+                if mu['line'] >= len(ls) or ls[mu['line']] != mu['old']:
+                    return dict(id=mu['id'], ok=False, status='line %d no longer reads as recorded (mutant out of date)' % (mu['line'] + 1), keys=[])
+                ls[mu['line']] = mu['new']
+                s = None
+                open(path, 'w').write('\n'.join(ls))
+            elif mu['id'].startswith('ctrl-rename') and s.count(mu['old']) >= 1:
                 pass
             elif s.count(mu['old']) != 1:
                 return dict(id=mu['id'], ok=False, status='anchor text occurs %d times (mutant out of date)' % s.count(mu['old']), keys=[])
-            open(path, 'w').write(s.replace(mu['old'], mu['new']))
+            if s is not None:
+                open(path, 'w').write(s.replace(mu['old'], mu['new']))
             for f2, o2, n2 in mu.get('also', []):
                 p2 = os.path.join(scratch, 'crates', 'kira', 'src', f2)
                 s2 = open(p2).read()
